@@ -19,6 +19,7 @@ pub mod c18;
 pub mod c19;
 pub mod c20;
 pub mod nodeops;
+pub mod scale;
 
 pub fn dispatch(_cmd: &str, _a: &Args) -> bool {
     if c08::dispatch(_cmd, _a) || c09::dispatch(_cmd, _a) {
@@ -31,6 +32,8 @@ pub fn dispatch(_cmd: &str, _a: &Args) -> bool {
         "c07" => c07::run(_a),
         "c11" => c11::run(_a),
         "c11-child" => c11::child(_a),
+        "scale" => scale::run(_a),
+        "scale-child" => scale::child(_a),
         "c12" => c12::run(_a),
         "c13" => c13::run(_a),
         "c16" => c16::run(_a),
